@@ -17,23 +17,26 @@ events on `drain`.
 
 Ops (a case starts with `reset [next=<counter>]`):
   open c=K | in c=K it=<f:pk,pk,..|bad|err|eof> | rd c=K [w=0] | rds c=K [w=0] | wr c=K ok=<0|1> |
-  adv dt=MS | kick c=K | okick c=K | push c=K | mpush ids=<cK|u<n>,..> | spush c=K | fill c=K n=N | qfill n=N | arm <op> | go | drain | end
+  adv dt=MS | kick c=K | okick c=K | dokick | push c=K | mpush ids=<cK|u<n>,..> | spush c=K | fill c=K n=N | qfill n=N | arm <op> | go | drain | end
   (`open` options: cbp=<h|c> panicking close callback, ce=<1|f> conn.Close() returns an error (always | first call),
    oa=<k|p> the owner's handler kicks the session / pushes to its id from inside OnSessionAdd)
 packets: hs1 hs0 ack d<mid> x<mid> hb ot.
 
 Observation: one record per connection, `;`-separated, then ` | live=<ids> g=<goroutines>`:
   cK:st=<1-4>,rd=<w|h|m|x>,wr=<p|->,cc=<conn.Close calls>,nw=<writes>,hw=<handshake responses>,
-     np=<pushes handed to it by the owner's PushMsg>,ev=<A|M<mid>|R …; nothing is recorded after R>,ow=<a<id>|m<mid>|n<mid>|r<h><c> …>,
+     np=<pushes handed to it by the owner's PushMsg>,ev=<A|M<mid>|R …; nothing is recorded after R>,ow=<a<id>|m<mid>|p<mid> (handled with another payload than sent)|n<mid>|r<h><c> …>,
      tb=<the handler's own lookup of the id from inside OnSessionAdd (1 = this session), then from inside OnSessionRemove (0 = gone)>[,r=<ok|closed>]
 
 tcp smoke engine (real TCPAcceptor, real time): `reset-tcp pk=<pk,..> tail=<hex> [lens=<body lengths> cut=<byte offsets>] [passive=1]`
 (`passive=1`: the client never half-closes; `Framing.framesOpen`; the reader ends the session on a complete malformed header, otherwise the
-owner kicks it; observation gets `,rel=<the server's socket is gone>`)
+owner kicks it; observation gets `,rel=<the server's socket is gone>`; `lag=1`: the owner is busy - a task of its scheduler does not
+return - from before the connect until the reader has posted everything the stream holds, so the client's packets are all received
+while the earlier messages still wait in the owner's queue; the owner's order of events is the same, the model ignores the flag)
 = one whole connection whose byte stream arrives in the pieces given by `cut`; the model frames the same stream
 (`Framing.framesOf`: real headers and tail, body bytes abstracted) and feeds the messages to the session model;
 `b<mid>` = a decodable message with a body larger than the socket buffers; `reset-wsc pk=.. tail=.. [frag=1] [glue=1]` =
-the same through the real WSAcceptor (one packet per websocket message, `Framing.wsNext`); observation `ev=..,ow=<a|m<mid>|r11 …>,eof=<server closed the socket>,g=<goroutines left>`.
+the same through the real WSAcceptor (one packet per websocket message, `Framing.wsNext`); observation `ev=..,ow=<a|m<mid>|r11 …>,eof=<server closed the socket>,g=<goroutines left>,pl=<ids of the messages whose route/payload, at the moment
+the owner's handler got them, was not what the client sent under that id, `+`-separated; empty = none>`.
 
 `spec` evaluates the property on the implementation's observations only.
 -/
@@ -67,6 +70,8 @@ structure D where
   armed : Option String := none      -- op recorded by `arm`, executed by `go`
   fillers : Nat := 0                 -- filler closures in the owner's queue (`qfill`), gone at the next drain
   hnd : Hnd := {}                    -- HandlerComponent.onCloseCBs: id ↦ the connection whose handler registered a close callback
+  kh : Bool := false                 -- a custom IKickHandler is set (`reset kh=1`): notice now, DoKick later (`dokick`)
+  pendK : List Nat := []             -- ids the kick handler was handed and has not yet passed to DoKick
 
 def M32 : Nat := 4294967296
 
@@ -225,6 +230,26 @@ def kickConn (d : D) (c : Conn) : D :=
 /-- an application push would park its caller: queue full on an open session -/
 def wouldBlock (c : Conn) : Bool := c.s.status != .closed && c.s.closed == false && c.s.sendq ≥ sendCap
 
+/-- `ClientSessions.Kick(id)` on the owner goroutine (`Session.Own.kick`): nothing / the default kick / the custom kick
+handler, which - like the mmo gate's - pushes a notice to the id (not when that would park the owner) and keeps the id for a
+later `DoKick` -/
+def kickReq (d : D) (id : Nat) : D :=
+  let o : Own := { counter := d.counter, live := d.live }
+  match o.kick d.kh id with
+  | .miss => d
+  | .close k => (match findConn d k with | some c => kickConn d c | none => d)
+  | .handler id =>
+    let d := (o.pushTargets [id]).foldl (fun d k' => match findConn d k' with
+      | some c' => if wouldBlock c' then d else settleAll (putConn d { c' with s := fireL c'.s [.push], np := c'.np + 1 })
+      | none => d) d
+    { d with pendK := d.pendK ++ [id] }
+
+/-- `ClientSessions.DoKick(id)` (`Session.Own.doKick`): the table is left alone, the session found is closed -/
+def doKickReq (d : D) (id : Nat) : D :=
+  match (({ counter := d.counter, live := d.live } : Own).doKick id).2 with
+  | some k => (match findConn d k with | some c => kickConn d c | none => d)
+  | none => d
+
 /-- `ClientSessions` on the owner goroutine, one posted task (the sessions map is `Session.Own`: every lookup is by the
 id the session holds, `session.GetId()`) -/
 def ownerTask (d : D) (k : Nat) (e : Ev) : D :=
@@ -240,10 +265,7 @@ def ownerTask (d : D) (k : Nat) (e : Ev) : D :=
       -- the harness's handler registers a per-session close callback with the real HandlerComponent
       let d := putConn { d with counter := r.1.counter, live := r.1.live, hnd := d.hnd.register r.2 k } c
       -- ... and what it does with the session there: Kick(id) / PushMsg([id]) go through the map like anybody else's
-      if c.oa == "k" then
-        (match r.1.lookup r.2 with
-         | some k' => (match findConn d k' with | some c' => kickConn d c' | none => d)
-         | none => d)
+      if c.oa == "k" then kickReq d r.2
       else if c.oa == "p" then
         (if wouldBlock c then d else
          (r.1.pushTargets [r.2]).foldl (fun d k' => match findConn d k' with
@@ -323,7 +345,7 @@ def stepCore (d : D) (line : String) : D × String :=
   let k := (kvNat ws "c").getD 0
   match ws.head? with
   | some "reset" =>
-    let d : D := { counter := (kvNat ws "next").getD 1 }
+    let d : D := { counter := (kvNat ws "next").getD 1, kh := kv ws "kh" == some "1" }
     (d, "ok")
   | some "open" =>
     if (findConn d k).isSome || k == 0 then (d, "none") else
@@ -362,8 +384,13 @@ def stepCore (d : D) (line : String) : D × String :=
     | none => (d, "none")
   | some "okick" =>
     match findConn d k with
-    | some c => let d := if isLive d c then kickConn d c else d; (d, showObs d k "")
+    | some c => let d := kickReq d c.id; (d, showObs d k "")
     | none => (d, "none")
+  | some "dokick" =>
+    -- the kick handler's delayed DoKick of the oldest id it holds
+    match d.pendK with
+    | [] => (d, "none")
+    | id :: rest => let d := doKickReq { d with pendK := rest } id; (d, showObs d 0 "" ++ s!" kid={id}")
   | some "push" =>
     match findConn d k with
     | some c =>
@@ -465,7 +492,7 @@ def connScript (pks : List String) (readerEnds : Bool := true) (passive : Bool :
   let d := endCase d
   match findConn d 1 with
   | some c =>
-    s!"ev={String.join ((evShown c.s.posted).map showEv)},ow={String.join (c.ow.map showOwNoId)},eof={c.s.connCloses},g={goroutines d}" ++
+    s!"ev={String.join ((evShown c.s.posted).map showEv)},ow={String.join (c.ow.map showOwNoId)},eof={c.s.connCloses},g={goroutines d},pl=" ++
       (if passive then s!",rel={c.s.connCloses}" else "")
   | none => "bad-op"
 
@@ -545,6 +572,7 @@ structure Sp where
   armed : Option String := none
   prev : List (Nat × Option Nat × Nat) := []   -- per connection after the previous op: (connection, its session id if added, pushes received)
   prevLive : List Nat := []                     -- ids registered at the owner after the previous op
+  kh : Bool := false                            -- a custom kick handler is set: a kick request closes nothing until its DoKick
   deriving Inhabited
 
 /-- split `A`, `M123`, `R` / `a2`, `m5`, `n5`, `r11` sequences: a token starts at a letter -/
@@ -601,6 +629,8 @@ def checkConn (sp : Sp) (atEnd : Bool) (drained : Bool) (k : Nat) (fs : List Str
   else if nr > 1 then some s!"C05/session-remove-twice connection {k}: owner saw {ow}"
   else if cc ≥ 1 && nR == 0 then some s!"C05/no-session-remove connection {k}: conn.Close() was called but OnSessionClose never was"
   else if cc > 1 || cc != nR then some s!"C05/conn-close-count connection {k}: conn.Close called {cc} times, OnSessionClose {nR} times"
+  else if ow.any (·.startsWith "p") then
+    some s!"C05/message-content connection {k}: the owner's handler was handed message(s) {(ow.filter (·.startsWith "p")).map numOf} with a route/payload other than the one that arrived under that id (arrived {sent}; owner saw {ow})"
   else if ow.any (·.startsWith "n") then some s!"C05/message-after-remove connection {k}: handler invoked without a session: {ow}"
   else if afterR.any (fun t => t.startsWith "m" || t.startsWith "n") then some s!"C05/message-after-remove connection {k}: {ow}"
   else if na == 0 && (owM.length > 0 || nr > 0) then some s!"C05/session-add-missing-or-twice connection {k}: owner saw {ow} without an add"
@@ -608,7 +638,7 @@ def checkConn (sp : Sp) (atEnd : Bool) (drained : Bool) (k : Nat) (fs : List Str
     some s!"C05/added-session-not-live connection {k}: the handler was told of the new session ({ow.head?.getD ""}) but from inside OnSessionAdd the owner's table holds no such session under that id (kicks, pushes and lookups at that moment miss it)"
   else if nr == 1 && tb.drop 1 != ['0'] then
     some s!"C05/removed-session-still-live connection {k}: from inside OnSessionRemove the id is still registered at the owner (tb={String.ofList tb})"
-  else if na == 1 && oa == "k" && nR == 0 then
+  else if na == 1 && oa == "k" && !sp.kh && nR == 0 then
     some s!"C05/kick-ignored connection {k}: the handler kicked the session from inside OnSessionAdd ({ow.head?.getD ""}); the session was not closed (status {st}, no OnSessionClose)"
   else if na == 1 && oa == "p" && !filled && np == 0 then
     some s!"C05/push-delivery connection {k}: the handler pushed to the id of the session it was just told of ({ow.head?.getD ""}) from inside OnSessionAdd: the push reached nobody"
@@ -671,6 +701,8 @@ def specTcp (ws : List String) (obs : String) : String :=
     s!"VIOLATION C05/message-lost tcp connection: the client sent {mustDeliver pkToks} complete and in order after the handshake (stream pieces cut at [{(kv ws "cut").getD ""}]), the owner saw {ow}"
   else if ow != ["a"] ++ (owM.map fun m => s!"m{m}") ++ ["r11"] then s!"VIOLATION C05/owner-sequence tcp connection: owner saw {ow}"
   else if !isSubseq evM sent || owM != evM then s!"VIOLATION C05/message-order tcp connection: arrived {sent}, posted {evM}, owner saw {owM}"
+  else if (kv fs "pl").getD "" != "" then
+    s!"VIOLATION C05/message-content tcp connection{if kv ws "lag" == some "1" then " whose owner was busy while the client's packets arrived" else ""}: the client sent {sent}; when the owner handled message(s) {(kv fs "pl").getD ""} the payload was not the one sent under that id (it must be the connection's own message, unchanged, whatever the reader received meanwhile)"
   else if kv fs "eof" != some "1" then "VIOLATION C05/socket-not-closed tcp connection: the server never closed the socket"
   else if kv fs "g" != some "0" then s!"VIOLATION C05/goroutine-leak tcp connection{if kv ws "passive" == some "1" then " ended by the server while the client keeps its side open and silent" else ""}: goroutines left: {(kv fs "g").getD "?"}"
   else if kv ws "passive" == some "1" && kv fs "rel" != some "1" then
@@ -729,7 +761,7 @@ def specStep (sp : Sp) (line : String) : Sp × String :=
     let ws := if isGo then (match sp.armed with | some a => words a | none => ws) else ws
     let sp := if isGo then { sp with armed := none } else sp
     let sp : Sp := match ws.head? with
-      | some "reset" => {}
+      | some "reset" => { kh := kv ws "kh" == some "1" }
       | some "open" => { sp with conns := sp.conns ++ [{ k := (kvNat ws "c").getD 0, lastGrant := sp.now, cbp := (kv ws "cbp").getD "", oa := (kv ws "oa").getD "" }] }
       | some "fill" =>
         if obs == "none" then sp else
@@ -786,6 +818,24 @@ def specStep (sp : Sp) (line : String) : Sp × String :=
             | none => 0
           if np == oldNp + want then none
           else some s!"C05/push-delivery connection {k}: {op}: the owner handed it {np - oldNp} pushes, {want} expected (registered ids of the push get it once each, whatever else is in the id list)"
+      -- kick requests: `okick` without a kick handler, and the kick handler's `dokick` (the id it used is in the observation):
+      -- an id that was registered for a connection whose removal the owner had not seen must have that session closed now
+      let kickedId : Option Nat :=
+        if ws.head? == some "okick" && !sp.kh then idOf kOp
+        else if ws.head? == some "dokick" then kvNat tws "kid"
+        else none
+      let kickBad : Option String := kickedId.bind fun id =>
+        if !sp.prevLive.contains id then none else
+        sp.prev.findSome? fun (k, pid, _) =>
+          if pid != some id then none else
+          match rs.find? (fun q => q.1 == k) with
+          | none => none
+          | some q =>
+            let owq := tokens ((kv q.2 "ow").getD "")
+            let evq := tokens ((kv q.2 "ev").getD "")
+            if sp.prev.any (fun p => p.1 != k && p.2.1 == some id) then none   -- the id was given out twice (wrap): not judged
+            else if evq.any (· == "R") then none
+            else some s!"C05/kick-ignored connection {k}: {op}: id {id} was registered at the owner for this live session; the kick did not close it (no OnSessionClose; owner log {owq})"
       let sp := { sp with prev := cur, prevLive := liveIds }
       -- lower bound: a frame of packets that neither end the loop nor leave Working (decodable data, hb, ack, kick packet),
       -- handed to the reader of a Working session; when the reader is back waiting and nothing has closed the session
@@ -816,6 +866,7 @@ def specStep (sp : Sp) (line : String) : Sp × String :=
       | some v => (sp, "VIOLATION " ++ v)
       | none =>
         if let some v := pushBad then (sp, "VIOLATION " ++ v)
+        else if let some v := kickBad then (sp, "VIOLATION " ++ v)
         else if let some p := stale then
           (sp, s!"VIOLATION C05/removed-session-still-live connection {p.1}: the owner saw its session-removed but the session is still registered: live={(kv tws "live").getD ""}")
         else if wrFail && rs.any (fun p => p.1 == kOp && !(tokens ((kv p.2 "ev").getD "")).any (· == "R")) then
